@@ -486,10 +486,10 @@ def constructions(F, adt, variant=None, skip_derives=True):
                     yield b, i, j, st
 
 
-def check_infeasible_provenance(ctx, rule):
+def check_infeasible_provenance(ctx, rule, node_states=True):
     F = ctx.facts
     n = 0
-    for b, i, j, st in constructions(F, 'NodeState', 'Infeasible'):
+    for b, i, j, st in (constructions(F, 'NodeState', 'Infeasible') if node_states else ()):
         n += 1
         R = Resolver(b)
         lits = literals(b, R, i)
@@ -500,7 +500,7 @@ def check_infeasible_provenance(ctx, rule):
         else:
             ctx.bad(rule, site, 'an Infeasible verdict is produced outside the PolytopeStatus::Infeasible arm of the LP status '
                     '(guards: %s)' % '; '.join('%s %s %s' % (x[0], fmt(x[1])[:60], set(x[2]) if x[0] == 'is' else '') for x in lits[:6]), st['span'])
-    if n == 0:
+    if n == 0 and node_states:
         ctx.lost(rule, 'construction of NodeState::Infeasible')
     # PolytopeStatus::Infeasible is the back-end's Infeasible only
     m = 0
